@@ -1173,6 +1173,17 @@ class Interp:
         if r is not None:
             func, cenv = r
             return self.run(func, args, cenv)
+        if c.trait is None and c.qself is None:
+            # enum variant / tuple struct constructors used as functions (`Option::map(x, SongId)`, `.map(Ok)`)
+            segs = [nm for nm, _ in c.segs]
+            last = segs[-1]
+            if len(segs) >= 2:
+                vi = self.prog.variant_index(segs[-2], last)
+                if vi is not None:
+                    return Adt(segs[-2], last, vi, list(args))
+            if last in self.prog.structs and last[:1].isupper() and (last,) not in [k for k in ()]:
+                if not any(k == last for k in MODELS):
+                    return Adt(last, None, 0, list(args))
         return self.call_model(c, args, fr)
 
     def call_model(self, c, args, fr):
